@@ -29,7 +29,11 @@ func init() {
 				}
 				continue
 			}
-			cfgs = append(cfgs, &HarnessCfg{Name: "VerifC06_Step", Pkg: pebPkg, Solver: "z3", Params: map[string]int64{"pre": pre, "lookup": lk}, MaxPaths: 2000000})
+			pp := pre
+			if lk == 2 {
+				pp = 1 // the entropy-range lookup multiplies case splits: one pre-existing signature in both tiers
+			}
+			cfgs = append(cfgs, &HarnessCfg{Name: "VerifC06_Step", Pkg: pebPkg, Solver: "z3", Params: map[string]int64{"pre": pp, "lookup": lk}, MaxPaths: 2000000})
 		}
 		if only := os.Getenv("VERIF_ONLY"); only != "" {
 			var f []*HarnessCfg
